@@ -915,6 +915,61 @@ def main(ctx):
     object_world(ctx, "several-matchers", list(MK), m_new, MOPS, m_do, m_modules, result_edits=True, depth=ctx.pick(3, 4),
                  check=m_check, must_raise=lambda kind, op: op[0] == "bad", nodedup_depth=ctx.pick(3, 4), state=lambda h: (h.M.get_depth(), getattr(h.M, "__dict__", {}), h.ra2, h.dec2))
 
+    # ------------------------------------------------------------ parameters in other numeric types
+    # radius, depth and maxmatch as narrow numpy integers / float32 / 0-d arrays / Python ints (values exactly
+    # representable in every type used): the pairs must be those of the call with Python float / int parameters,
+    # which the other parts compare with brute force
+    def one_typed(case, rec):
+        s1, s2, radv, depth, mm, what, form, route = case
+        g = GEN
+        p1, p2 = subset(s1, g), subset(s2, g)
+        c1 = (np.array([p[0] for p in p1]), np.array([p[1] for p in p1]))
+        c2 = (np.array([p[0] for p in p2]), np.array([p[1] for p in p2]))
+        conv = {"i1": np.int8, "u1": np.uint8, "i2": np.int16, "i8": np.int64, "u8": np.uint64, "f4": np.float32, "f8": np.float64,
+                "0d": lambda v: np.array(v), "pyint": int, "pyfloat": float, "bool": bool}[form]
+        r2, d2, m2 = radv, depth, mm
+        if what == "radius":
+            r2 = conv(radv)
+        elif what == "depth":
+            d2 = conv(depth)
+        else:
+            m2 = conv(mm)
+        fn = os.path.join(rec.tmp, "c12_typed.pairs")
+        try:
+            ref, _ = call(route, depth, c1, c2, float(radv), mm, fn)
+            got, _ = call(route, d2, c1, c2, r2, m2, fn)
+        except _Fail as ex:
+            return rec.fail(case, "%s given as %s: %s" % (what, form, ex))
+        except TypeError:
+            # the wrapped C++ entry points take depth and maxmatch as Python ints only and say so: a loud rejection of
+            # the TYPE is not a wrong answer (the statement quantifies over values); anything else is
+            return rec.ok(case, outcome="typed:%s:%s:rejected-by-type" % (what, form), nontrivial=False, calls=1)
+        except Exception as ex:
+            return rec.fail(case, "%s given as %s (%r): match raised %s: %s" % (what, form, {"radius": r2, "depth": d2}.get(what, m2), type(ex).__name__, ex))
+        msg = same_pairs(got, ref)
+        if msg:
+            return rec.fail(case, "%s given as %s differs from the call with Python numbers: %s" % (what, form, msg))
+        if len(ref[0]) == 0:
+            return rec.fail(case, "harness: no pair in the reference call")
+        rec.ok(case, outcome="typed:%s:%s" % (what, form), nontrivial=True, calls=2)
+
+    GEN = gen
+    tyunits = []
+    for (s1, s2) in (("bases", "dests"), ("all", "all")):
+        for route in ("oneshot-mem", "matcher-mem", "matcher-file"):
+            for radv in (2.0, 0.5):
+                for form in ("f4", "f8", "0d", "i1", "u1", "i8", "pyint"):
+                    if form in ("i1", "u1", "i8", "pyint") and radv != 2.0:
+                        continue
+                    tyunits.append((s1, s2, radv, 8, 2, "radius", form, route))
+            for form in ("i1", "u1", "i2", "i8", "u8", "0d"):
+                tyunits.append((s1, s2, 2.0, 8, 2, "depth", form, route))
+            for mm in (-1, 0, 1, 2):
+                for form in ("i1", "i2", "i8", "0d") + (("u1", "u8", "bool") if mm in (0, 1) else ()):
+                    tyunits.append((s1, s2, 2.0, 8, mm, "maxmatch", form, route))
+    ctx.lattice("typed-parameters", tyunits, one_typed, bounds=dict(parameters=["radius", "depth", "maxmatch"],
+                                                                   types=["i1", "u1", "i2", "i8", "u8", "f4", "f8", "0-d array", "Python int", "bool"]))
+
     # ------------------------------------------------------------ empty point sets
     # an empty first set, an empty matcher, both: no pair, count 0, the pair file created (replacing a stale one),
     # readable and empty, every file descriptor closed again - through every route, depth and limit
